@@ -30,6 +30,7 @@ EXPLANATION = (
     ' (R16) every construction of a MultiIndex in the reader and MULTIINDEX_TEMPLATE supplies the options the property lists as serialisable (coerce, strict, ordered, name, unique); today none is (known findings).'
     " (R17) the datetime branch of the writer's and the reader's stat converter (handle_stat_dtype) is entered through dtypes.is_datetime - the predicate the statistics producer classifies with, which covers time-zone-aware columns - not by `.check()` against the naive DateTime dtype."
     " (R18) the writer's per-statistic converter (the function that renders its own parameter with strftime, looked up in the source as written) returns the statistic itself or something obtained from it alone - never another value."
+    " (R20) the writer's and the reader's per-statistic converter has a branch for collection-valued statistics (isin / notin) that converts the elements. R5 additionally requires that whatever parse_checks records for one check is computed from that check alone (no mutable local written and read across the loop over the checks without being re-created)."
 )
 LEVEL_RULE = "one obligation per (attribute, hop) / template slot / dictionary key found in the current tree"
 FLOORS = {"R1": 90, "R2": 14, "R3": 20, "R4": 3, "R5": 5, "R6": 3, "R7": 3, "R8": 1, "R9": 1, "R10": 1, "R12": 2, "R13": 1, "R14": 1, "R15": 1}
@@ -777,6 +778,51 @@ def r18_writer_converter_keeps_the_value(ctx):
         raise AnalysisError(f"writer's stat converter: returns found: {n}")
 
 
+def r20_stat_converters_reach_the_elements(ctx):
+    """Some built-in checks keep a *collection* as their statistic (`isin` / `notin`: the allowed values).  The per-statistic
+    converters of the writer and the reader turn a Timestamp into text (and back) only when they are handed the Timestamp
+    itself; a list of Timestamps passed through untouched reaches the YAML / JSON dumper unconverted and to_yaml / to_json
+    raise.  Each converter therefore has a branch for collections that converts the elements (decided on the source as
+    written: the function that renders its own parameter with strftime / parses it with to_datetime)."""
+    io = ctx.ix.module(IO)
+    raw = ast.parse(io.source)
+    n = 0
+    for fn in [x for x in ast.walk(raw) if isinstance(x, (ast.FunctionDef, ast.AsyncFunctionDef))]:
+        own = list(_own_nodes(fn))
+        params = [a.arg for a in fn.args.posonlyargs + fn.args.args]
+        conv = [c for c in own if isinstance(c, ast.Call) and isinstance(c.func, ast.Attribute) and c.func.attr in ("strftime", "to_datetime")
+                and ((c.func.attr == "strftime" and isinstance(c.func.value, ast.Name) and c.func.value.id in params)
+                     or (c.func.attr == "to_datetime" and c.args and isinstance(c.args[0], ast.Name) and c.args[0].id in params))]
+        if not conv:
+            continue
+        stat = conv[0].func.value.id if conv[0].func.attr == "strftime" else conv[0].args[0].id
+        n += 1
+        # a branch that tests the statistic for being a collection and converts its elements (recursive call / comprehension over it)
+        elementwise = False
+        for x in own:
+            if isinstance(x, (ast.If, ast.IfExp)):
+                t = x.test
+                is_coll = any(isinstance(c, ast.Call) and isinstance(c.func, ast.Name) and c.func.id == "isinstance" and c.args and txt(c.args[0]) == stat
+                              and any(k in txt(c.args[1]) for k in ("list", "tuple", "set", "Iterable", "Sequence", "Collection")) for c in ast.walk(t))
+                if not is_coll:
+                    continue
+                body = x.body if isinstance(x, ast.If) else [x.body]
+                for b in body:
+                    for y in ast.walk(b):
+                        if isinstance(y, (ast.ListComp, ast.GeneratorExp, ast.For)) and any(isinstance(z, ast.Name) and z.id == stat for z in ast.walk(
+                                y.generators[0].iter if not isinstance(y, ast.For) else y.iter)):
+                            elementwise = True
+        f = next((g for g in io.all_functions if g.name == fn.name), io.all_functions[0])
+        ctx.touched(f)
+        role = "writer" if conv[0].func.attr == "strftime" else "reader"
+        ctx.ob("R20", f, f"{role}: the stat converter converts the elements of a collection-valued statistic", elementwise,
+               "collection branch converts element-wise" if elementwise else
+               f"`{fn.name}` converts `{stat}` only when it is the datetime value itself: Check.isin([pd.Timestamp(...)]) on a datetime column hands the dumper a list of Timestamps - "
+               "to_yaml raises RepresenterError, to_json TypeError", f"{io.path}:{fn.lineno}")
+    if n < 2:
+        raise AnalysisError(f"stat converters found: {n}")
+
+
 def run(ctx):
     from ..defassign import check_modules
     check_modules(ctx, "R10", ('pandera/io/pandas_io.py', 'pandera/schema_statistics/pandas.py'), "escapes serialisation: the round trip is not even attempted")
@@ -791,6 +837,7 @@ def run(ctx):
     r16_multiindex_rebuilt_with_its_options(ctx)
     r17_stat_converter_covers_every_datetime_dtype(ctx)
     r18_writer_converter_keeps_the_value(ctx)
+    r20_stat_converters_reach_the_elements(ctx)
     ix = ctx.ix
     io = ix.module(IO)
     st = ix.module(STATS)
